@@ -19,7 +19,8 @@ PROPS_MODULE = "NumbersModel.Props.C07"
 THEOREMS = [f"NumbersModel.Props.C07.{t}" for t in (
     "open_store_bounds", "ids_unique_and_below_hwm", "new_file_listed", "new_files_listed_history", "references_closed",
     "references_closed_except", "targetsExist_prefix", "header_refs_exact", "created_header_exact",
-    "create_total", "created_object_filed", "created_goes_to_first_iwa_member", "iwaPaths_mem", "tiles_partition_rows",
+    "create_total", "created_object_filed", "created_goes_to_first_iwa_member", "iwaPaths_mem",
+    "stored_objects_stay_filed_create", "stored_objects_stay_filed", "header_refs_exact_history", "tiles_partition_rows",
     "tiles_wellformed", "records_in_bounds_aligned_disjoint", "record_positions", "row_info_offsets_roundtrip")]
 PARTIAL = {
     "saved_file_opens_again": "validated, not proved (zipfile, snappy, protobuf and the whole reader are outside the model)",
@@ -27,12 +28,14 @@ PARTIAL = {
                                   "is checked on every recorded real session (oracle signature reference-to-missing-object), not derived from model.py: the "
                                   "creator sites are not modelled one by one. It fails exactly for identifier 0 (known finding null-reference-identifier-zero; "
                                   "references_closed_except with the exemption of 0 covers those histories)",
-    "stored_objects_stay_filed": "header_refs_exact assumes wellFiled (every stored object's archive is in the file its file-name map names). Proved: every object a creation "
-                                 "returns is filed, in an IWA member, never in a blob (created_object_filed; since fixes/C19-new-objects-go-to-iwa-members.patch "
-                                 "create_object_from_dict only considers IWA members, create_total: no AttributeError whatever the file store holds). Still not an invariant of "
-                                 "arbitrary histories for the objects already there: create_object_from_dict stores a new file under pattern.format(id)+'.iwa' even when a member "
-                                 "of that name exists (example in Props/C07.lean); the driver evaluates wellFiled before and after every recorded history and the oracle checks it "
-                                 "on the real store",
+    "new_member_names_free": "header_refs_exact assumes wellFiled (every stored object's archive is in the file its file-name map names). Now proved kept: "
+                             "stored_objects_stay_filed (every history of creations, component entries, reference writes, updates and blob additions keeps FiledInv = wellFiled + "
+                             "distinct member names + identifiers below the mark), stored_objects_stay_filed_create, created_object_filed (since "
+                             "fixes/C19-new-objects-go-to-iwa-members.patch a new object never goes to a blob; create_total: no AttributeError whatever the file store holds) - "
+                             "under the side condition namesFree: a creation that makes a NEW member does not take an existing member's name (create_object_from_dict stores "
+                             "under pattern.format(id)+'.iwa' without looking; counter-example in Props/C07.lean, where namesFree is false). That the histories the library "
+                             "performs satisfy namesFree is observed, not derived: oracle signature created-file-replaces-existing-member on every recorded real session, and the "
+                             "driver evaluates wellFiled before and after every recorded history",
     "header_exact_without_proviso": "header_refs_exact has the proviso the code has (`if len(references) > 0`): an object whose message lost all references keeps the header "
                                     "list of an earlier moment (seen on real sessions: HeaderStorageBucket of issue-66-collab / issue-77, counted in the evidence); the "
                                     "entries still resolve, so closure is not affected",
@@ -72,7 +75,9 @@ MANIFEST = {
             "position; with append the only failure is KeyError when no IWA member matches: the AttributeError of the pinned code on a non-IWA member is gone, "
             "fixes/C19-new-objects-go-to-iwa-members.patch, pinned candidates kept as pathsPinned with a counter-example), created_goes_to_first_iwa_member + "
             "iwaPaths_mem (the new archive is appended to the first IWA member, in file-store order, whose name contains the pattern), created_object_filed (the "
-            "object returned is filed in an IWA member that lists it); new_file_listed + new_files_listed_history (a new archive file is listed with the locator that names it and the entry survives "
+            "object returned is filed in an IWA member that lists it), stored_objects_stay_filed (+ _create, header_refs_exact_history: wellFiled - the hypothesis of "
+            "header_refs_exact - is an invariant of every history in which no new member takes an existing member's name, so every save of such a history writes exact "
+            "headers); new_file_listed + new_files_listed_history (a new archive file is listed with the locator that names it and the entry survives "
             "every later operation); tile geometry: tiles_partition_rows + tiles_wellformed; row-infos: records_in_bounds_aligned_disjoint + record_positions + "
             "row_info_offsets_roundtrip. Tie to the code: the operation history of every real edit+save session (seeded histories, add_table / add_sheet across tile "
             "boundaries, styles, custom formats, captions, merges, borders, plain re-saves, second saves, reopened files) is recorded in-process and replayed through "
